@@ -108,7 +108,7 @@ type wop struct {
 	Op   string `json:"op"`             // attach | stop | publish | replace | end | end+attach | attach-after-end
 	Kind string `json:"kind,omitempty"` // attach: tcp | udp | ws | wsp | httpflv | wsflv
 	Who  int    `json:"who"`            // stop: which client (creation order)
-	How  string `json:"how,omitempty"`  // stop: teardown | disconnect; end: publisher | delete
+	How  string `json:"how,omitempty"`  // stop: teardown | disconnect; end: publisher | delete | shutdown
 	Old  bool   `json:"old,omitempty"`  // end: the oldest live stream instead of the registered one
 	N    int    `json:"n,omitempty"`    // publish: packets
 	Spin int    `json:"spin,omitempty"` // end+attach: how long the end waits after the attach started (x 20 µs)
@@ -246,6 +246,17 @@ func genWirePlan(t *rapid.T) *wplan {
 		}
 		return cur
 	}
+	// "shutdown" = ipchub's own Service.Close(). It ends every REGISTERED stream; a retired
+	// stream that still has clients is not in the registry any more (in a real shutdown the
+	// process exits right afterwards), so it is drawn only while the registered stream is
+	// the only live one.
+	endHows := func(label string) string {
+		hows := []string{"publisher", "delete"}
+		if cur >= 0 && len(live) == 1 && os.Getenv("VERIF_WIRE_NO_SHUTDOWN") == "" {
+			hows = append(hows, "shutdown")
+		}
+		return rapid.SampledFrom(hows).Draw(t, label)
+	}
 	n := rapid.IntRange(3, 12).Draw(t, "ops")
 	for i := 0; i < n && len(live) > 0; i++ {
 		var aliveIdx []int
@@ -282,12 +293,12 @@ func genWirePlan(t *rapid.T) *wplan {
 			live = append(live, nextGen)
 			nextGen++
 		case k == 13 && cur >= 0:
-			pl.Ops = append(pl.Ops, wop{Op: "end+attach", Kind: rapid.SampledFrom(kindsFor(cur)).Draw(t, "kind"), How: rapid.SampledFrom([]string{"publisher", "delete"}).Draw(t, "endHow"), Spin: rapid.IntRange(0, 40).Draw(t, "spin")})
+			pl.Ops = append(pl.Ops, wop{Op: "end+attach", Kind: rapid.SampledFrom(kindsFor(cur)).Draw(t, "kind"), How: endHows("endHow"), Spin: rapid.IntRange(0, 40).Draw(t, "spin")})
 			clients = append(clients, simClient{cur, false, ""}) // whatever becomes of it, it ends with the stream
 			endGen(cur)
 		case k >= 14:
 			old := rapid.Bool().Draw(t, "old")
-			pl.Ops = append(pl.Ops, wop{Op: "end", How: rapid.SampledFrom([]string{"publisher", "delete"}).Draw(t, "endHow"), Old: old})
+			pl.Ops = append(pl.Ops, wop{Op: "end", How: endHows("endHow"), Old: old})
 			endGen(pickEnd(old))
 		default:
 			pl.Ops = append(pl.Ops, wop{Op: "publish", N: rapid.IntRange(1, 4).Draw(t, "n")})
@@ -296,7 +307,7 @@ func genWirePlan(t *rapid.T) *wplan {
 	// every stream still live ends in the end, one by one
 	for len(live) > 0 {
 		old := rapid.Bool().Draw(t, "finalOld")
-		pl.Ops = append(pl.Ops, wop{Op: "end", How: rapid.SampledFrom([]string{"publisher", "delete"}).Draw(t, "finalEndHow"), Old: old})
+		pl.Ops = append(pl.Ops, wop{Op: "end", How: endHows("finalEndHow"), Old: old})
 		endGen(pickEnd(old))
 	}
 	if rapid.IntRange(0, 2).Draw(t, "attachAfterEnd") == 0 {
@@ -1102,9 +1113,9 @@ func (w *wworld) attach(kind string, mustWork bool) *wclient {
 func (w *wworld) end(g *wgen, how string) {
 	gi := w.genIndex(g)
 	switch how {
-	case "delete":
+	case "delete", "shutdown":
 		if media.Get(w.path) != g.st {
-			how = "publisher" // the API addresses the registered stream only
+			how = "publisher" // the API and the shutdown address the registered stream only
 		}
 	}
 	w.note("stream #%d ends by %s", gi, how)
@@ -1121,6 +1132,8 @@ func (w *wworld) end(g *wgen, how string) {
 		if resp.StatusCode != 200 {
 			evid.Violation(w.t, "wire-delete-refused", w.detail(nil), "DELETE /api/v1/streams%s with an administrator's token answered %d", w.path, resp.StatusCode)
 		}
+	case "shutdown":
+		srv.Shutdown() // Service.Close(): jobs cancelled, every registered stream unregistered and closed, tables flushed
 	default:
 		if g.rec != nil {
 			g.rec.Close()
